@@ -103,24 +103,29 @@ theorem uniquify_preserves_nets (fuel : Nat) (d : Design) (hwf : WF d)
         | false => simp [hx] at hu
 
 /-- Newly created definitions have fresh unique names in the original's library:
-    * definition names stay pairwise distinct inside every library (`DefNamesUnique`);
+    * definition names stay pairwise distinct inside every library (`DefNamesUnique`), and so do the
+      `EDIF.identifier` entries the code also rewrites, compared case-insensitively as the EDIF
+      naming policy does (`DefEidsUnique`);
     * `Grows`: old definitions keep name, library, ports and cables; every new definition `n` is a
       copy (same library, ports, cables) of an earlier definition `x`, unnamed if `x` is unnamed and
       otherwise named `name x ++ "_sdn_unique_" ++ k` with `k` between the counter before and after
       the call; the relative order of the old definitions in every library is unchanged. -/
 theorem uniquify_fresh_names (fuel : Nat) (d : Design) (hwf : WF d) :
-    (DefNamesUnique d → DefNamesUnique (uniquify fuel d).design) ∧ Grows d (uniquify fuel d).design := by
+    (DefNamesUnique d → DefNamesUnique (uniquify fuel d).design) ∧
+    (DefEidsUnique d → DefEidsUnique (uniquify fuel d).design) ∧ Grows d (uniquify fuel d).design := by
   have hok := uniquify_ok fuel d
-  have := uLoop_induct (fun d' queue => WFQ d' queue ∧ (DefNamesUnique d → DefNamesUnique d') ∧ Grows d d')
+  have := uLoop_induct (fun d' queue => WFQ d' queue ∧ (DefNamesUnique d → DefNamesUnique d') ∧
+      (DefEidsUnique d → DefEidsUnique d') ∧ Grows d d')
     (by
-      intro d1 q k rest d2 push ⟨inv, hnm, hg⟩ h
+      intro d1 q k rest d2 push ⟨inv, hnm, hei, hg⟩ h
       refine ⟨inv.step h, ?_⟩
       have hq : q < d1.ndefs := inv.2 (q, k) List.mem_cons_self
       rcases uStep_cases h with ⟨rfl, _, _⟩ | ⟨c, hc, ⟨rfl, _, _⟩ | ⟨_, hl, hm, _⟩⟩
-      · exact ⟨hnm, hg⟩
-      · exact ⟨hnm, hg⟩
-      · exact ⟨fun h0 => makeUnique_names hm (hnm h0), hg.trans (makeUnique_grows inv.1 hq hc hm)⟩)
-    fuel (uInit d) ⟨WFQ.init hwf, id, Grows.refl hwf.2.2.2.1⟩ hok
+      · exact ⟨hnm, hei, hg⟩
+      · exact ⟨hnm, hei, hg⟩
+      · exact ⟨fun h0 => makeUnique_names hm (hnm h0), fun h0 => makeUnique_eids hm (hei h0),
+          hg.trans (makeUnique_grows inv.1 hq hc hm)⟩)
+    fuel (uInit d) ⟨WFQ.init hwf, id, id, Grows.refl hwf.2.2.2.1⟩ hok
   exact this.2
 
 /-- Each copy is inserted immediately behind its original in the original's library (one step of the
@@ -171,6 +176,19 @@ theorem uniquify_idem (fuel : Nat) (d : Design) (hwf : WF d) (hac : Acyclic d)
     rw [(mem_childAddrs.mp ha).1]
     exact Reach.top)
   exact ⟨this.1, this.2⟩
+
+/-- Headline, without run-time flags: there is a fuel bound `N` (the size of the unfolding) such that
+    for every larger fuel the model's result is well-formed, uniquified, has the same elaboration
+    as the input, and is a fixpoint of uniquify (also for the name counter). -/
+theorem uniquify_correct (d : Design) (hwf : WF d) (hac : Acyclic d) :
+    ∃ N, ∀ fuel, N ≤ fuel →
+      WF (uniquify fuel d).design ∧ Unique (uniquify fuel d).design ∧ SameElab d (uniquify fuel d).design ∧
+      (∀ fuel', (uniquify fuel' (uniquify fuel d).design).design = (uniquify fuel d).design) := by
+  obtain ⟨N, hN⟩ := uniquify_finishes d hwf hac
+  refine ⟨N, fun fuel hf => ?_⟩
+  have hfin := hN fuel hf
+  exact ⟨uniquify_wf fuel d hwf, uniquify_unique fuel d hwf hac hfin, uniquify_preserves_elab fuel d hwf,
+    fun fuel' => (uniquify_idem fuel d hwf hac hfin fuel').1⟩
 
 /-! ### Non-vacuity: a concrete shared, two-level design satisfies the hypotheses, and the model
     really copies on it. -/
